@@ -403,6 +403,57 @@ fn c02_bigbed_item_count() {
     core::mem::forget(third);
 }
 
+// @harness c02_bigbed_item_count_nozooms
+// @props C02 C06
+// @tier off
+// @kind core
+// @timeout 1800
+// @mem 44
+// @functions BigBedNoZoomsProcess::do_process (item counter; process_val; zoom-size counters with no zoom level configured)
+// @bounds 1 entry (followed by another one) from the empty per-chromosome state, coordinates in 0..=12, zero-length entries included; items_per_slot 4
+// @stubs tokio Handle::spawn -> counted/discarded; mpsc Sender -> always-ready log; alloc::fmt::format -> empty; index_list::IndexList -> 4-slot sequence model by one source substitution
+// @sub src/bbi/bigbedwrite.rs ::: use index_list::IndexList; ::: use crate::verif_support::ilist::IndexList;
+// @cut BigBedFullProcess (the single-pass twin has the same counter line; its harness c02_bigbed_item_count does not finish); destroy() (copies the counter into the summary) and write_info (c09_header_layout places it)
+// @witness cover: a zero-length entry is counted
+#[kani::proof]
+#[kani::unwind(8)]
+#[kani::stub(tokio::runtime::Handle::spawn, fake_spawn_skip)]
+#[kani::stub(futures::channel::mpsc::Sender::poll_ready, fake_poll_ready)]
+#[kani::stub(futures::channel::mpsc::Sender::start_send, fake_start_send)]
+#[kani::stub(alloc::fmt::format, fake_format)]
+fn c02_bigbed_item_count_nozooms() {
+    let (s0, e0, s1, e1): (u32, u32, u32, u32) = (kani::any(), kani::any(), kani::any(), kani::any());
+    kani::assume(s0 <= e0 && s1 <= e1 && s0 <= s1 && e0 <= 12 && e1 <= 12);
+    let env = Env::new();
+    let ftx = unsafe { core::ptr::read(&env.tx) };
+    let mut options = BBIWriteOptions::default();
+    options.items_per_slot = 4;
+    options.compress = false;
+    let mut p = core::mem::ManuallyDrop::new(BigBedNoZoomsProcess {
+        ftx,
+        chrom_id: 3,
+        options,
+        runtime: env.handle_owned(),
+        chrom: String::new(),
+        length: 100,
+        summary: None,
+        items: Vec::with_capacity(4),
+        overlap: IndexList::new(),
+        zoom_counts: Vec::new(),
+        total_items: 0,
+    });
+    let second = entry(s1, e1);
+    let r0 = poll_once(p.do_process(entry(s0, e0), Some(&second)));
+    let ok0 = match &r0 { Some(Ok(())) => true, _ => false };
+    core::mem::forget(r0);
+    assert!(ok0, "[accepted] valid entry refused");
+    assert!(p.total_items == 1, "[item_count] the item counter must equal the number of entries processed, whatever their length");
+    assert!(p.items.len() == 1, "[buffered] the entry is buffered for its block");
+    let c1 = s0 == e0;
+    kani::cover!(c1, "zero-length entry");
+    core::mem::forget(second);
+}
+
 fn depth2_at(x: u32, a0: u32, a1: u32, a2: u32, d1: u64, d2: u64, np: u8, is: u32, ie: u32) -> u64 {
     let base = if np >= 1 && a0 <= x && x < a1 { d1 } else if np >= 2 && a1 <= x && x < a2 { d2 } else { 0 };
     base + ((is <= x && x < ie) as u64)
